@@ -507,6 +507,17 @@ def check_mirror(ctx):
                 decls = [x for x in nodes if x.get("k") == "local" and x["pat"].get("name") == bound]
                 if len(decls) == 1 and enclosing_loop(decls[0]) is enclosing_loop(n) and enclosing_loop(n) is not None and decls[0].get("init") is not None and sir.expr_str(decls[0]["init"]) == "0":
                     scope_ok = True
+        # the other spelling of the same discipline: remember the depth before the pushes, truncate back to it after the element
+        if not (ok and cnt_ok and scope_ok) and None not in (push, call):
+            for n in nodes:
+                if is_mcall(n, "truncate", "scopes") and n["args"]:
+                    a_ = sir.strip_ref(n["args"][0])
+                    if a_.get("k") == "path" and len(a_["segs"]) == 1:
+                        decls = [i for i, x in enumerate(nodes) if x.get("k") == "local" and x["pat"].get("name") == a_["segs"][0] and x.get("init") is not None and is_mcall(x["init"], "len", "scopes")]
+                        t_i = [i for i, x in enumerate(nodes) if x is n][0]
+                        if len(decls) == 1 and decls[0] < push < call < t_i and enclosing_loop(nodes[decls[0]]) is enclosing_loop(n) and enclosing_loop(n) is not None:
+                            ok, cnt_ok, scope_ok = True, True, True
+                            pop = t_i
         obs.append(ob("C05.mirror/gen/slot-scopes", bool(ok and cnt_ok and scope_ok), ctx.where(f), "push@%s < element@%s < pop@%s; pops counted by the pushes: %s; counter starts at 0 for every child: %s" % (push, call, pop, cnt_ok, scope_ok),
                       witness=None if scope_ok else "<a wx:for=..><b slot:x/><c/>{{item}}</a>: the second child pops the scopes of the first again"))
     # generator start scopes
